@@ -18,7 +18,6 @@
 (* INSTANCE for the refinement and invariant checks).                     *)
 (*                                                                         *)
 (* Deviations of the code as originally written (FALSE = as written):     *)
-(*   FixD1  early-park arm flushes before parking                         *)
 (*   FixD3  replier stream is not polled while a reply is still buffered  *)
 (*   FixD4  an absent replier / empty requestor map counts as "pending"   *)
 (*   FixD5  errors of the replier's sink unbind it instead of unwrap()    *)
@@ -33,7 +32,7 @@ CONSTANTS Cls, Rps,
           MaxBlocks, MaxBreaks, MaxErrs, MaxBad, MaxJunk, MaxBig,
           AllowClose,
           MaxAhead,    \* environment steps allowed while a wake-up is pending (bounds run-ahead)
-          FixD1, FixD3, FixD4, FixD5, FixD6, FixD9, FixD16
+          FixD3, FixD4, FixD5, FixD6, FixD9, FixD16
 
 VARIABLES s, h, ahead
 vars == <<s, h, ahead>>
@@ -179,9 +178,8 @@ StepC ==
        ELSE IF s.closed
        THEN s' = [s EXCEPT !.pc = "flush", !.ret = "done", !.todo = s.rsinks] /\ h' = h
        ELSE IF s.streams = <<>> /\ s.server = 0 /\ s.bufReq = None /\ s.bufRep = None
-       THEN /\ s' = IF FixD1
-                    THEN [s EXCEPT !.chanWk = TRUE, !.pc = "flush", !.ret = "park", !.todo = s.rsinks]
-                    ELSE [s EXCEPT !.chanWk = TRUE, !.pc = "idle"]
+       THEN \* nothing to do: park (the requestor sinks were flushed on the way here)
+            /\ s' = [s EXCEPT !.chanWk = TRUE, !.pc = "idle"]
             /\ h' = h
        ELSE s' = [s EXCEPT !.chanWk = TRUE, !.pc = "D"] /\ h' = h
 
